@@ -215,7 +215,7 @@ class ExplorerScriptSsbCompiler:
         # Check if macros_only
         if macros_only:
             # Check if the file contains any routines
-            if HasRoutinesVisitor().visit(parser.start()):
+            if HasRoutinesVisitor().visit(tree):
                 # noinspection PyUnusedLocal
                 fn = os.path.basename(file_name)  # noqa
                 raise SsbCompilerError(f(_("{fn}: Macro scripts must not contain any routines.")))
